@@ -20,7 +20,7 @@
   optional last token e1 / e2: the runtime's Object.prototype has a setter / a read-only 7 named "a" and ""
   space:    -  |  S.. D.. BS.. BD..  |  Z (anything else)
     parse t:<hex units> v<id>                   JSON.parse(text, reviver) (family `reviverFn`); the result is
-                                                <value>|<keys of the reviver calls in call order>
+                                                <value>|<holder kind A/O + key of the reviver calls in call order>
   results:  parse: det:<value> | throw:SyntaxError   (the harness answers unord:/nondet if repeated runs differ)
             str:   s:<hex units> | undefined | throw:TypeError
 -/
@@ -174,18 +174,36 @@ def retV : RV → Option RV
   | .undef => none
   | v => some v
 
-/-- the reviver family (the harness holds the same table as JavaScript source) -/
+def seven' : RV := .num (.fin false 7 0)
+
+/-- the reviver family (the harness holds the same table as JavaScript source).  Effects on `this`
+    are guarded by the kind of the holder in the JavaScript source (Array.isArray(this)); here the
+    effect simply does nothing on the other kind (`HEff.onObj` / `HEff.onArr`). -/
 def reviverFn : Nat → Option Reviver
-  | 0 => some fun _ v => ⟨retV v, none⟩
-  | 1 => some fun k v => ⟨if k = sA then none else retV v, none⟩
-  | 2 => some fun _ v => ⟨match v with | .num _ => none | v => retV v, none⟩
-  | 3 => some fun k v => ⟨match v with | .str _ => some (.str k) | v => retV v, none⟩
-  | 4 => some fun _ v => ⟨match v with | .bool _ => some .null | v => retV v, none⟩
-  | 5 => some fun k v => ⟨if k ≠ [] ∧ isObjRV v then some (.str [111]) else retV v, none⟩
-  | 6 => some fun k v => ⟨if k = [98] ∨ k = [49] then none else retV v, none⟩
-  -- 7, 8: called for "a", delete the sibling "b" of the holder; 7 turns an undefined value into "u"
-  | 7 => some fun k v => ⟨match v with | .undef => some (.str [117]) | v => some v, if k = sA then some [98] else none⟩
-  | 8 => some fun k v => ⟨retV v, if k = sA then some [98] else none⟩
+  | 0 => some fun _ v => ⟨retV v, .none⟩
+  | 1 => some fun k v => ⟨if k = sA then none else retV v, .none⟩
+  | 2 => some fun _ v => ⟨match v with | .num _ => none | v => retV v, .none⟩
+  | 3 => some fun k v => ⟨match v with | .str _ => some (.str k) | v => retV v, .none⟩
+  | 4 => some fun _ v => ⟨match v with | .bool _ => some .null | v => retV v, .none⟩
+  | 5 => some fun k v => ⟨if k ≠ [] ∧ isObjRV v then some (.str [111]) else retV v, .none⟩
+  | 6 => some fun k v => ⟨if k = [98] ∨ k = [49] then none else retV v, .none⟩
+  -- 7, 8: called for "a", delete the sibling "b" of an object holder; 7 turns undefined into "u"
+  | 7 => some fun k v => ⟨match v with | .undef => some (.str [117]) | v => some v, if k = sA then .delKey [98] else .none⟩
+  | 8 => some fun k v => ⟨retV v, if k = sA then .delKey [98] else .none⟩
+  -- array holders: 9 this.length = 1 at "1"; 10 this.length = 5 at "0"; 11 push(7) at "0"; 12 pop() at "1";
+  -- 13 delete this[2] at "0"; 14 this[2] = "x" at "0" and this[0] = "y" at "2"; 15 = 9 with undefined -> "u";
+  -- 17 push(7) on every call; 18 this[5] = "x" at "1" (beyond the length)
+  | 9 => some fun k v => ⟨retV v, if k = [49] then .setLen 1 else .none⟩
+  | 10 => some fun k v => ⟨retV v, if k = [48] then .setLen 5 else .none⟩
+  | 11 => some fun k v => ⟨retV v, if k = [48] then .push seven' else .none⟩
+  | 12 => some fun k v => ⟨retV v, if k = [49] then .pop else .none⟩
+  | 13 => some fun k v => ⟨retV v, if k = [48] then .delIdx 2 else .none⟩
+  | 14 => some fun k v => ⟨retV v, if k = [48] then .setIdx 2 (.str [120]) else if k = [50] then .setIdx 0 (.str [121]) else .none⟩
+  | 15 => some fun k v => ⟨match v with | .undef => some (.str [117]) | v => some v, if k = [49] then .setLen 1 else .none⟩
+  -- 16: an object holder gets a new sibling "zz" when called for "a" (not visited)
+  | 16 => some fun k v => ⟨retV v, if k = sA then .setKey [122, 122] seven' else .none⟩
+  | 17 => some fun _ v => ⟨retV v, .push seven'⟩
+  | 18 => some fun k v => ⟨retV v, if k = [49] then .setIdx 5 (.str [120]) else .none⟩
   | _ => none
 
 def logTok (l : List Str) : String := ",".intercalate (l.map fun k => "k" ++ unitsOut k)
@@ -200,7 +218,7 @@ def handleRevive (text : Str) (f : Reviver) : String :=
     | some mv => "det:" ++ revTok (reviveTop f fuel (rvOf mv))
   let specTok := match Spec.jsonParse text with
     | none => "throw:SyntaxError"
-    | some v => let r := Spec.revive f fuel [] (rvOf v); "det:" ++ revTok (r.1.val, r.2)
+    | some v => let r := Spec.revive f fuel 79 [] (rvOf v); "det:" ++ revTok (r.1.val, r.2)
   reply modelTok specTok (joinDev (parseDevs text))
 
 /-! ### JSON.stringify -/
